@@ -318,9 +318,147 @@ def run_case(case):
                 r.count("fresh_copy_call_raised")
         if watch.ops > 0:
             r.cell(label, op, mode, lay)
+    if mode == "eval":
+        try:
+            reuse_and_update_phase(r, model, model0, kind, cfg, label, opnames, mk_inputs, me if kind == "transform" else None, seed,
+                                   uses_cache)
+        except Exception as e:
+            r.inconc("reuse/update phase: harness failure %r" % (e,))
     r.sample({"subject": label, "mode": mode, "steps": nsteps, "inplace_writes_on_intermediates": total_writes})
     return r.done()
 
 
 def _needs_ctx(kind, cfg):
     return bool(cfg.get("ctx"))
+
+
+def do_call(m, op, xx, cc, nsamp):
+    if op == "forward":
+        return m.forward(xx, cc)
+    if op == "inverse":
+        return m.inverse(xx, cc)
+    if op == "log_prob":
+        return (m.log_prob(xx, cc),)
+    if op == "transform_to_noise":
+        return (m.transform_to_noise(xx, cc),)
+    if op == "sample":
+        return (m.sample(nsamp, cc),)
+    if op == "sample_and_log_prob":
+        return m.sample_and_log_prob(nsamp, cc)
+    if op == "mean":
+        return (m.mean(cc),)
+
+
+def same_results(a_out, b_out, uses_cache):
+    """None when every tensor of the two result tuples has the same bits (an ulp of slack with weight caching on), else the
+    index and size of the first difference"""
+    for k, (a, b) in enumerate(zip(a_out, b_out)):
+        if isinstance(a, torch.Tensor) and isinstance(b, torch.Tensor):
+            a, b = a.detach(), b.detach()
+            err = float((a - b).abs().max()) if a.shape == b.shape and a.numel() else None
+            if uses_cache and err is not None and err <= 1e-12 * (1 + float(b.abs().max())):
+                continue
+            if a.shape != b.shape or not ww.same_bits(a, b):
+                return k, err
+    return None
+
+
+def reuse_and_update_phase(r, model, model0, kind, cfg, label, opnames, mk_inputs, me, seed, uses_cache):
+    """Evaluation-mode histories in which (1) the CALLER reuses its own argument tensors - refills them in place between two
+    calls made under no_grad, the usual way of evaluating - and (2) the model's values change between calls the legitimate way
+    (train(), new parameter / statistic values, eval()).  Results must be those of a never-called copy holding the same values:
+    anything the object remembers about earlier arguments (keyed on tensor identity, shape, dtype ...) or about earlier
+    parameter values shows as a difference."""
+    def inv_inputs(x, c):
+        with torch.no_grad():
+            y = copy.deepcopy(model0).eval()(x, c)[0].detach()
+        if me is not None and me["dom_out"][0] == "box":
+            y = y.clamp(me["dom_out"][1], me["dom_out"][2])
+        return y
+
+    def compare(tag, op, xx, cc, ref_model, step):
+        nsamp = (1, 3)[step % 2]
+        torch.manual_seed(seed + 77 + step)
+        try:
+            with torch.no_grad():
+                got = do_call(model, op, xx, cc, nsamp)
+        except Exception:
+            r.count("calls_raised")
+            return
+        torch.manual_seed(seed + 77 + step)
+        try:
+            with torch.no_grad():
+                ref = do_call(ref_model, op, None if xx is None else xx.clone(), None if cc is None else cc.clone(), nsamp)
+        except Exception:
+            r.count("fresh_copy_call_raised")
+            return
+        r.ev()
+        r.count("fresh_copy_comparisons")
+        r.count(tag + "_comparisons")
+        bad = same_results(got, ref, uses_cache)
+        if bad is not None:
+            r.viol("history_dependence", "%s.%s result depends on earlier calls on the same object" % (label, op),
+                   phase=tag, result_index=bad[0], max_diff=bad[1], subject=label, op=op, cfg=cfg)
+        r.cell(label, op, "eval", tag)
+
+    # (1) caller-owned buffers refilled in place
+    for oi, op in enumerate(opnames):
+        try:
+            x1, c1 = mk_inputs(20 + oi)
+            x2, c2 = mk_inputs(23 + oi)          # same batch size (3 + step % 3), other values
+            if kind == "transform" and op == "inverse":
+                x1, x2 = inv_inputs(x1, c1), inv_inputs(x2, c2)
+                if not (torch.isfinite(x1).all() and torch.isfinite(x2).all()):
+                    continue
+        except Exception:
+            continue
+        xb = None if x1 is None else x1.clone()
+        cb = None if c1 is None else c1.clone()
+        torch.manual_seed(seed + 5)
+        try:
+            with torch.no_grad():
+                do_call(model, op, xb, cb, (1, 3)[oi % 2])
+        except Exception:
+            r.count("calls_raised")
+            continue
+        if xb is not None and x2 is not None and xb.shape == x2.shape:
+            xb.copy_(x2)
+        else:
+            xb = x2
+        if cb is not None and c2 is not None and cb.shape == c2.shape:
+            cb.copy_(c2)
+        else:
+            cb = c2
+        compare("refilled_arguments", op, xb, cb, copy.deepcopy(model0), oi)
+    # (2) new values through train() ... eval()
+    try:
+        model.train()
+        with torch.no_grad():
+            gg = torch.Generator().manual_seed(seed + 991)
+            for p_ in model.parameters():
+                p_.add_(0.05 * torch.randn(p_.shape, generator=gg, dtype=torch.float64).to(p_.dtype))
+            persistent = set(model.state_dict().keys())      # constants kept as non-persistent buffers are not "values"
+            for bn, b_ in model.named_buffers():
+                if bn in persistent and b_.is_floating_point() and b_.numel() and "initialized" not in bn:
+                    b_.mul_(1.25)
+        model.eval()
+        ref_model = copy.deepcopy(model0)
+        ref_model.load_state_dict(model.state_dict())
+        ref_model.eval()
+    except Exception as e:
+        r.count("update_phase_skipped")
+        return
+    for oi, op in enumerate(opnames):
+        try:
+            x1, c1 = mk_inputs(30 + oi)
+            if kind == "transform" and op == "inverse":
+                with torch.no_grad():
+                    x1 = copy.deepcopy(ref_model)(x1, c1)[0].detach()
+                if me is not None and me["dom_out"][0] == "box":
+                    x1 = x1.clamp(me["dom_out"][1], me["dom_out"][2])
+                if not torch.isfinite(x1).all():
+                    continue
+        except Exception:
+            continue
+        compare("after_value_update", op, x1, c1, copy.deepcopy(ref_model), oi)
+
